@@ -467,6 +467,13 @@ def _target_loops(rec):
     return loops[:1]
 
 
+def items(tier):
+    out = []
+    for fam in FAMILIES:
+        out.extend(fam(tier))
+    return out
+
+
 def run(tier):
     core.setup_psyclone_env()
     out = core.Outcome("C05", tier, "model_checking", matchers=MATCHERS)
